@@ -2,7 +2,7 @@
    decode_encode_msg in proofs/ProtoMsgProofs.v) + the AST-level lookup plookup; the reference
    implementation's own report of the message is cross-checked against the model in 701. *)
 From Coq Require Import ZArith List Bool.
-From DG Require Import CaseFormat ProtoWireRef ProtoMsg ProtoCase ProtoGeneric.
+From DG Require Import CaseFormat ProtoWireRef ProtoMsg ProtoCase ProtoGeneric ProtoGenericAlg.
 Import ListNotations.
 Local Open Scope Z_scope.
 
@@ -133,43 +133,212 @@ Definition obs_ok (api : Z) (p : list pstep) (r : lres) (st ty : Z) (raw : list 
   | LErr => (st =? 1) || (st =? 2)
   end.
 
-Section Queries.
-  Variable judge : list pstep -> Z -> Z -> list Z -> verdict.
-  (* returns the combined verdict; bad queries are collected (index + expected observation) *)
-  Fixpoint run_queries (n : nat) (idx : Z) (fs : list field) (acc : verdict) (bad : list field) : verdict :=
-    match n with
-    | O => match fs with
-           | [] => match bad with [] => acc | _ => VBad 1 bad end
-           | _ => VBad 99 []
-           end
-    | S n' =>
-      match parse_path fs with
-      | Some (p, FZ st :: FZ ty :: FB raw :: r) =>
-        match judge p st ty raw with
-        | VBad c d => run_queries n' (idx + 1) r acc (bad ++ FZ idx :: FZ c :: d)
-        | v => run_queries n' (idx + 1) r (vworse acc v) bad
-        end
-      | _ => VBad 99 []
-      end
-    end.
-End Queries.
+(* ---- known findings: a deviation from the spec is a KNOWN finding only if it is exactly what the code does
+   with some of the recorded defects unrepaired. [classify rel matches] tries the sets of unrepaired defects
+   among [rel] by increasing size ([] = everything repaired) and returns the first whose as-coded model
+   (ProtoGenericAlg, flags = the others repaired) reproduces the observation. *)
+Fixpoint powerset (l : list Z) : list (list Z) :=
+  match l with
+  | [] => [[]]
+  | x :: r => let ps := powerset r in ps ++ map (cons x) ps
+  end.
+Definition subsets_by_size (l : list Z) : list (list Z) :=
+  let ps := powerset l in
+  flat_map (fun k => filter (fun s => (length s =? k)%nat) ps) (seq 0 (Datatypes.S (length l))).
+Definition fx_of (off : list Z) : fixes :=
+  let on (id : Z) := negb (existsb (Z.eqb id) off) in
+  mk_fixes (on 701) (on 702) (on 703) (on 704) (on 705) (on 706) (on 707) (on 709) (on 710) (on 711).
+Definition classify (rel : list Z) (matches : fixes -> bool) : option (list Z) :=
+  find (fun off => matches (fx_of off)) (subsets_by_size rel).
+Fixpoint zmin (l : list Z) (d : Z) : Z := match l with [] => d | x :: r => Z.min x (zmin r x) end.
+(* verdict for a spec violation *)
+Definition known_or_bad (c : option (list Z)) (bad : verdict) : verdict :=
+  match c with
+  | Some (id :: r) => VKnown (zmin (id :: r) id)
+  | Some [] => match bad with VBad _ d => VBad 6 d | v => v end    (* even the fully repaired model deviates from the spec *)
+  | None => bad
+  end.
 
-Definition judge_702 (sc : schema) (root : list Z) (m : pmsg) (bs : list Z) (api : Z)
-           (p : list pstep) (st ty : Z) (raw : list Z) : verdict :=
+(* does the observation (status, type, raw) equal an as-coded outcome? *)
+Definition obs_matches_alg (g : gout) (st ty : Z) (raw : list Z) : bool :=
+  match g with
+  | GFoundA t r _ => (st =? 0) && (ty =? t) && bytes_eqb raw r
+  | GNotFoundA => st =? 1
+  | GErrA => (st =? 1) || (st =? 2)
+  | GPanicA => st =? 3
+  | GUnmodelled => false
+  end.
+Definition obs_matches_ares (a : ares) (st ty : Z) (raw : list Z) : bool :=
+  match a with
+  | ANode n => (st =? 0) && (ty =? an_t n) && bytes_eqb raw (an_raw n)
+  | ABroken t => (st =? 3) && (ty =? t)
+  | ANotFound => st =? 1
+  | AErr => (st =? 1) || (st =? 2)
+  | APanic => (st =? 3) && (ty =? 0)
+  | AUnmod => false
+  end.
+(* a child / bulk result: Some (type, raw) | None = absent *)
+Definition obs_matches_child (c : option (Z * list Z)) (st ty : Z) (raw : list Z) : bool :=
+  match c with
+  | Some (t, r) => if t =? 0 then st =? 1                       (* an UNKNOWN node is reported as absent by the harness *)
+                   else (st =? 0) && (ty =? t) && bytes_eqb raw r
+  | None => st =? 1
+  end.
+
+Fixpoint pval_any (f : pval -> bool) (v : pval) {struct v} : bool :=
+  f v ||
+  match v with
+  | VMsg fs => existsb (fun nv => pval_any f (snd nv)) fs
+  | VList _ vs => existsb (pval_any f) vs
+  | VMap kvs => existsb (fun kx => pval_any f (snd kx)) kvs
+  | _ => false
+  end.
+Definition is_oos_map (v : pval) : bool :=
+  match v with VMap ((KInt k _, _) :: _) => negb (key_in_subset k) | _ => false end.
+Definition has_direct (f : pval -> bool) (v : pval) : bool :=
+  match v with VMsg fs => existsb (fun nv => f (snd nv)) fs | _ => false end.
+
+Definition parent_of (p : list pstep) : list pstep := removelast p.
+
+(* the parent node the implementation obtained (observed type / raw / Len) is the node the spec designates *)
+Definition parent_node (sc : schema) (root : list Z) (m : pmsg) (bs : list Z) (p : list pstep)
+           (pst pty : Z) (praw : list Z) (psize : Z) : option (anode * pval) :=
+  if negb (pst =? 0) then None else
+  match parent_of p with
+  | [] => if (pty =? K_MESSAGE) && bytes_eqb praw bs then Some (root_node root bs, VMsg m) else None
+  | pre =>
+    match plookup_root sc root m pre with
+    | LFound lbl t num v =>
+      if (pty =? node_type lbl t) && bytes_eqb praw (node_raw lbl num v)
+      then Some (mk_anode pty praw psize false lbl t num, v) else None
+    | _ => None
+    end
+  end.
+
+(* extra fields of a query of APIs 5, 6, 9: parent observation, requests, position *)
+Record qextra := mk_qextra { q_pst : Z; q_pty : Z; q_praw : list Z; q_psize : Z; q_reqs : list pstep; q_at : Z }.
+Definition no_extra : qextra := mk_qextra 9 0 [] 0 [] 0.
+
+(* recursive loads of the root for every repair configuration (computed once per case line, API 7) *)
+Definition root_loads (sc : schema) (root : list Z) (bs : list Z) : list (list Z * tres) :=
+  map (fun off => (off, a_load (fx_of off) sc true (root_node root bs))) (subsets_by_size [706; 711]).
+
+Definition judge_702 (sc : schema) (root : list Z) (m : pmsg) (bs : list Z) (api : Z) (loads : list (list Z * tres))
+           (p : list pstep) (st ty : Z) (raw : list Z) (x : qextra) : verdict :=
   if st =? 9 then VSkip else
   let r := plookup_root sc root m p in
-  if obs_ok api p r st ty raw then VOk
-  else if path_out_of_subset sc LSingular (TMsg root) (VMsg m) p then VDrift 1
-  else VBad 2 (exp_fields r).
+  let bad := VBad 2 (exp_fields r) in
+  let rootv := VMsg m in
+  if (api =? 1) || (api =? 2) || (api =? 3) then
+    (* Value.GetByPath / GetByPathWithAddress *)
+    if obs_ok api p r st ty raw then VOk
+    else if path_out_of_subset sc LSingular (TMsg root) rootv p then VDrift 1
+    else known_or_bad (classify [701; 702; 703; 704; 710]
+                                (fun fx => obs_matches_alg (gbp fx sc root bs p) st ty raw)) bad
+  else if api =? 4 then
+    (* chained Field / FieldByName / Index / GetByStr / GetByInt *)
+    if obs_ok api p r st ty raw then VOk
+    else if path_out_of_subset sc LSingular (TMsg root) rootv p then VDrift 1
+    else known_or_bad (classify [703; 705]
+                                (fun fx => obs_matches_ares (a_chain fx sc (root_node root bs) p) st ty raw)) bad
+  else if (api =? 5) || (api =? 9) || (api =? 6) then
+    match parent_node sc root m bs p (q_pst x) (q_pty x) (q_praw x) (q_psize x) with
+    | None => VSkip                       (* the parent itself is not located correctly: reported under APIs 1-3 *)
+    | Some (pn, pv) =>
+      if obs_ok api p r st ty raw then VOk
+      else if path_out_of_subset sc LSingular (TMsg root) rootv p || has_direct is_oos_map pv || is_oos_map pv then VDrift 1
+      else if api =? 6 then
+        (* PathNode.Load(recurse=false) on the parent node: no repair recorded, the code as it is *)
+        let model := match a_load no_fixes sc false pn with
+                     | TOk kids _ => match last_step p with
+                                     | Some s => match find_kid s kids with
+                                                 | Some (ATree _ t rw _) => obs_matches_child (Some (t, rw)) st ty raw
+                                                 | None => st =? 1
+                                                 end
+                                     | None => false
+                                     end
+                     | TErr => (st =? 1) || (st =? 2)
+                     | TPanic => st =? 3
+                     | TUnmod => false
+                     end in
+        match an_lbl pn, an_t pn =? K_MESSAGE, parent_of p with
+        | LSingular, true, _ :: _ => if model then VKnown 708 else bad     (* nested message node: length prefix parsed as a tag *)
+        | _, _, _ => bad
+        end
+      else
+        (* GetMany with the recorded requests; the queried path is request number q_at *)
+        known_or_bad (classify [703; 707]
+          (fun fx => match a_getmany fx sc pn (q_reqs x) with
+                     | MOk l => match nth_error l (Z.to_nat (q_at x)) with
+                                | Some c => obs_matches_child c st ty raw
+                                | None => false
+                                end
+                     | MErr => (st =? 1) || (st =? 2)
+                     | MPanic => st =? 3
+                     | MUnmod => false
+                     end)) bad
+    end
+  else if api =? 7 then
+    (* PathNode.Load(recurse=true) on the root, then a walk along the path *)
+    if obs_ok api p r st ty raw then VOk
+    else if pval_any is_oos_map rootv then VDrift 1
+    else known_or_bad
+           (option_map fst
+              (find (fun ol => match snd ol with
+                               | TOk kids _ => obs_matches_child (walk_tree kids p) st ty raw
+                               | TErr => (st =? 1) || (st =? 2)
+                               | TPanic => st =? 3
+                               | TUnmod => false
+                               end) loads)) bad
+  else
+    if obs_ok api p r st ty raw then VOk
+    else if path_out_of_subset sc LSingular (TMsg root) rootv p then VDrift 1
+    else bad.
 
-(* fields: schema, bytes, api, #queries, { path, status, type, raw } *)
+Definition has_extra (api : Z) : bool := (api =? 5) || (api =? 9) || (api =? 6).
+
+Definition parse_extra (fs : list field) : option (qextra * list field) :=
+  match fs with
+  | FZ pst :: FZ pty :: FB praw :: FZ psize :: FZ nreq :: r =>
+    if negb (count_ok nreq) then None else
+    match parse_steps (Z.to_nat nreq) r with
+    | Some (reqs, FZ at_ :: r') => Some (mk_qextra pst pty praw psize reqs at_, r')
+    | _ => None
+    end
+  | _ => None
+  end.
+
+(* returns the combined verdict; bad queries are collected (index + expected observation) *)
+Fixpoint run_queries (judge : list pstep -> Z -> Z -> list Z -> qextra -> verdict) (extra : bool)
+         (n : nat) (idx : Z) (fs : list field) (acc : verdict) (bad : list field) : verdict :=
+  match n with
+  | O => match fs with
+         | [] => match bad with [] => acc | _ => VBad 1 bad end
+         | _ => VBad 99 []
+         end
+  | S n' =>
+    match parse_path fs with
+    | Some (p, FZ st :: FZ ty :: FB raw :: r) =>
+      match (if extra then parse_extra r else Some (no_extra, r)) with
+      | Some (x, r') =>
+        match judge p st ty raw x with
+        | VBad c d => run_queries judge extra n' (idx + 1) r' acc (bad ++ FZ idx :: FZ c :: d)
+        | v => run_queries judge extra n' (idx + 1) r' (vworse acc v) bad
+        end
+      | None => VBad 99 [FZ idx]
+      end
+    | _ => VBad 99 [FZ idx]
+    end
+  end.
+
+(* fields: schema, bytes, api, #queries, { path, status, type, raw [, parent obs, requests, position] } *)
 Definition check_702 (fs : list field) : verdict :=
   match parse_head fs with
   | Some (root, sc, bs, FZ api :: FZ nq :: r) =>
     if negb (count_ok nq) then VBad 99 [] else
     match decode_top sc root bs with
     | None => VSkip
-    | Some m => run_queries (judge_702 sc root m bs api) (Z.to_nat nq) 0 r VOk []
+    | Some m => run_queries (judge_702 sc root m bs api (if api =? 7 then root_loads sc root bs else [])) (has_extra api) (Z.to_nat nq) 0 r VOk []
     end
   | _ => VBad 99 []
   end.
@@ -273,24 +442,42 @@ Definition gval_fields (g : gval) : list field :=
   | GNil => [FZ 0] | GOther => [FZ 99]
   end.
 
-Definition judge_703 (sc : schema) (root : list Z) (m : pmsg) (p : list pstep) (cast st : Z) (got : option gval) : verdict :=
+Definition ires_matches (i : ires) (st : Z) (got : option gval) : bool :=
+  match i with
+  | IOk g => match got with Some g' => (st =? 0) && gval_eqv g g' | None => false end
+  | IErr => (st =? 1) || (st =? 2)
+  | IPanic => st =? 3
+  | IUnmod => false
+  end.
+
+(* nty / nraw: type and bytes of the node the cast was applied to (the harness obtains it with GetByPath) *)
+Definition judge_703 (sc : schema) (root : list Z) (m : pmsg) (bs : list Z) (p : list pstep)
+           (nty : Z) (nraw : list Z) (cast st : Z) (got : option gval) : verdict :=
   match plookup_root sc root m p with
   | LFound lbl t num v =>
+    let isroot := is_nil p in
+    let node_ok := if isroot then (nty =? K_MESSAGE) && bytes_eqb nraw bs
+                   else (nty =? node_type lbl t) && bytes_eqb nraw (node_raw lbl num v) in
+    (* when the lookup itself deviates it is reported by 702 *)
+    if negb node_ok then VSkip else
     let exp := if cast =? 8 then Some (to_gval v) else cast_expected cast v in
     match exp with
     | None => VSkip
     | Some e =>
-      match got with
-      | Some g => if (st =? 0) && gval_eqv e g then VOk
-                  else if path_out_of_subset sc LSingular (TMsg root) (VMsg m) p then VDrift 1
-                  else VBad 3 (gval_fields e)
-      | None => VBad 4 (gval_fields e)
-      end
+      let ok := match got with Some g => (st =? 0) && gval_eqv e g | None => false end in
+      let bad := VBad (match got with Some _ => 3 | None => 4 end) (FZ st :: gval_fields e) in
+      if ok then VOk
+      else if path_out_of_subset sc LSingular (TMsg root) (VMsg m) p || pval_any is_oos_map v then VDrift 1
+      else if cast =? 8 then
+        let nd := mk_anode nty nraw 0 isroot lbl t num in
+        known_or_bad (classify [703; 709]
+                               (fun fx => ires_matches (a_interface (S (length nraw)) fx sc nd) st got)) bad
+      else bad
     end
   | _ => VSkip
   end.
 
-Fixpoint run_casts (sc : schema) (root : list Z) (m : pmsg) (n : nat) (idx : Z) (fs : list field)
+Fixpoint run_casts (sc : schema) (root : list Z) (m : pmsg) (bs : list Z) (n : nat) (idx : Z) (fs : list field)
          (acc : verdict) (bad : list field) : verdict :=
   match n with
   | O => match fs with
@@ -299,16 +486,16 @@ Fixpoint run_casts (sc : schema) (root : list Z) (m : pmsg) (n : nat) (idx : Z) 
          end
   | S n' =>
     match parse_path fs with
-    | Some (p, FZ cast :: FZ st :: r) =>
+    | Some (p, FZ nty :: FB nraw :: FZ cast :: FZ st :: r) =>
       let parsed :=
         if negb (st =? 0) then match r with FZ 0 :: r' => Some (None, r') | _ => None end
         else if cast =? 8 then match parse_gval (S (length r)) r with Some (g, r') => Some (Some g, r') | None => None end
         else match parse_cast_value cast r with Some (g, r') => Some (Some g, r') | None => None end in
       match parsed with
       | Some (got, r') =>
-        match judge_703 sc root m p cast st got with
-        | VBad c d => run_casts sc root m n' (idx + 1) r' acc (bad ++ FZ idx :: FZ c :: d)
-        | v => run_casts sc root m n' (idx + 1) r' (vworse acc v) bad
+        match judge_703 sc root m bs p nty nraw cast st got with
+        | VBad c d => run_casts sc root m bs n' (idx + 1) r' acc (bad ++ FZ idx :: FZ c :: d)
+        | v => run_casts sc root m bs n' (idx + 1) r' (vworse acc v) bad
         end
       | None => VBad 98 [FZ idx]
       end
@@ -323,7 +510,7 @@ Definition check_703 (fs : list field) : verdict :=
     if negb (count_ok nq) then VBad 99 [] else
     match decode_top sc root bs with
     | None => VSkip
-    | Some m => run_casts sc root m (Z.to_nat nq) 0 r VOk []
+    | Some m => run_casts sc root m bs (Z.to_nat nq) 0 r VOk []
     end
   | _ => VBad 99 []
   end.
